@@ -98,8 +98,9 @@ def cm_handlers(fn):
 def single_exit(fn):
     """(statements, result expression or None) when fn can be expanded
     exactly, else None."""
-    if fn.decorator_list or fn.args.vararg or fn.args.kwarg or \
-            fn.args.posonlyargs:
+    decs = [ast.unparse(d) for d in fn.decorator_list]
+    if any(d not in ('staticmethod', 'classmethod') for d in decs) or \
+            fn.args.vararg or fn.args.kwarg or fn.args.posonlyargs:
         return None
     body = _body_without_doc(fn)
     if not body:
@@ -113,12 +114,106 @@ def single_exit(fn):
                           ast.Nonlocal, ast.Await)):
             return None
     for n in ast.walk(fn):
-        if isinstance(n, ast.Call) and isinstance(
-                n.func, ast.Name) and n.func.id == fn.name:
+        if isinstance(n, ast.Call) and (isinstance(
+                n.func, ast.Name) and n.func.id == fn.name or isinstance(
+                    n.func, ast.Attribute) and n.func.attr == fn.name):
             return None        # recursive
         if isinstance(n, (ast.FunctionDef, ast.Lambda)) and n is not fn:
             return None        # closures capture locals: keep it simple
     return body, res
+
+
+def _has_return(stmts):
+    return any(isinstance(n, ast.Return) for n in _own_walk(stmts))
+
+
+def _conv_tail(stmts, target, at):
+    """Statements with every (tail-position) ``return e`` turned into
+    ``target = e``; None when a return is not in tail position (inside a
+    loop, try, with, or followed by reachable code that is not the implicit
+    else of a guard)."""
+    out = []
+    for i, st in enumerate(stmts):
+        last = i == len(stmts) - 1
+        if isinstance(st, ast.Return):
+            if not last:
+                return None
+            val = st.value if st.value is not None else ast.Constant(
+                value=None)
+            out.append(ast.copy_location(ast.Assign(
+                targets=[ast.Name(id=target, ctx=ast.Store())],
+                value=copy_node(val)), st))
+            return out
+        if isinstance(st, ast.If) and (_has_return(st.body)
+                                       or _has_return(st.orelse)):
+            rest = stmts[i + 1:]
+            body = _conv_tail(st.body, target, st)
+            if body is None:
+                return None
+            if st.orelse:
+                if rest and (_ends_in_return(st.body)
+                             and _ends_in_return(st.orelse)):
+                    return None
+                orelse = _conv_tail(st.orelse + (
+                    rest if not _ends_in_return(st.orelse) else []),
+                    target, st)
+                if not _ends_in_return(st.body) and rest:
+                    return None
+            else:
+                if not _ends_in_return(st.body):
+                    return None
+                orelse = _conv_tail(rest, target, st) if rest else [
+                    ast.copy_location(ast.Assign(
+                        targets=[ast.Name(id=target, ctx=ast.Store())],
+                        value=ast.Constant(value=None)), st)]
+            if orelse is None:
+                return None
+            new = ast.If(test=copy_node(st.test), body=body, orelse=orelse)
+            out.append(ast.copy_location(new, st))
+            return out
+        if _has_return([st]):
+            return None
+        out.append(copy_node(st))
+    # fell off the end: implicit return None
+    out.append(ast.copy_location(ast.Assign(
+        targets=[ast.Name(id=target, ctx=ast.Store())],
+        value=ast.Constant(value=None)), at))
+    return out
+
+
+def _ends_in_return(stmts):
+    if not stmts:
+        return False
+    last = stmts[-1]
+    if isinstance(last, ast.Return):
+        return True
+    if isinstance(last, ast.If) and last.orelse:
+        return _ends_in_return(last.body) and _ends_in_return(last.orelse)
+    return False
+
+
+def tail_exit(fn, target):
+    """Body of fn with its tail-position returns assigned to ``target``
+    (for helpers with several exits), or None."""
+    decs = [ast.unparse(d) for d in fn.decorator_list]
+    if any(d not in ('staticmethod', 'classmethod') for d in decs) or \
+            fn.args.vararg or fn.args.kwarg or fn.args.posonlyargs:
+        return None
+    body = _body_without_doc(fn)
+    if not body:
+        return None
+    for n in _own_walk(body):
+        if isinstance(n, (ast.Yield, ast.YieldFrom, ast.Global, ast.Nonlocal,
+                          ast.Await)):
+            return None
+    for n in ast.walk(fn):
+        if isinstance(n, ast.Call) and (isinstance(
+                n.func, ast.Name) and n.func.id == fn.name or isinstance(
+                    n.func, ast.Attribute) and n.func.attr == fn.name):
+            return None
+        if isinstance(n, (ast.FunctionDef, ast.Lambda)) and n is not fn:
+            return None
+    return _conv_tail(body, target, fn)
 
 
 def _stores(stmts, params):
@@ -163,6 +258,14 @@ def _bind_args(fn, call):
     """param -> argument expression, or None when the call does not fit."""
     a = fn.args
     names = [x.arg for x in a.args]
+    recv = None
+    if isinstance(call.func, ast.Attribute) and fn.name in _METHODS[0]:
+        decs = [ast.unparse(d) for d in fn.decorator_list]
+        if 'staticmethod' not in decs:
+            if not names:
+                return None
+            recv = (names[0], call.func.value)
+            names = names[1:]
     kwonly = [x.arg for x in a.kwonlyargs]
     if any(isinstance(x, ast.Starred) for x in call.args) or any(
             k.arg is None for k in call.keywords):
@@ -183,21 +286,30 @@ def _bind_args(fn, call):
             if p not in defaults:
                 return None
             bound[p] = defaults[p]
+    if recv is not None:
+        bound[recv[0]] = recv[1]
     return bound
 
 
-def expand(fn, call):
+def expand(fn, call, target=None):
     """(prologue+body statements, result expression) of inlining the call,
-    or None."""
+    or None.  ``target``: the single name the call's value is assigned to;
+    when the helper returns one of its locals that local *is* the target
+    (no copy is left behind)."""
     se = single_exit(fn)
+    _COUNTER[0] += 1
+    k = _COUNTER[0]
     if se is None:
-        return None
-    body, res = se
+        rname = '__ret%d' % k
+        tb = tail_exit(fn, rname)
+        if tb is None:
+            return None
+        body, res = tb, ast.Name(id=rname, ctx=ast.Load())
+    else:
+        body, res = se
     bound = _bind_args(fn, call)
     if bound is None:
         return None
-    _COUNTER[0] += 1
-    k = _COUNTER[0]
     assigned = _stores(body, bound)
     names, exprs, pro = {}, {}, []
     for p, a in bound.items():
@@ -210,6 +322,12 @@ def expand(fn, call):
                              value=copy_node(a))
             ast.copy_location(asg, call)
             pro.append(asg)
+    if target and isinstance(res, ast.Name) and res.id in assigned and \
+            res.id not in bound and not any(
+                isinstance(x, ast.Name) and x.id == target
+                for a_ in bound.values() for x in ast.walk(a_)) and (
+                    target not in assigned or target == res.id):
+        names[res.id] = target
     for nm in assigned:
         if nm not in names:
             names[nm] = '%s__i%d' % (nm, k)
@@ -285,6 +403,22 @@ def inline_module(tree, new_names, foreign=None):
     context managers).  Returns the number of expansions."""
     defs = {st.name: st for st in tree.body
             if isinstance(st, ast.FunctionDef) and st.name in new_names}
+    # new methods (recorded as 'Class.method'), called as self.m(...),
+    # cls.m(...) or Class.m(...); only names unique in the module
+    meths = {}
+    classes = set()
+    for st in tree.body:
+        if isinstance(st, ast.ClassDef):
+            classes.add(st.name)
+            for x in st.body:
+                if isinstance(x, ast.FunctionDef) and '%s.%s' % (
+                        st.name, x.name) in new_names:
+                    meths.setdefault(x.name, []).append(x)
+    meths = {k: v[0] for k, v in meths.items() if len(v) == 1
+             and k not in defs}
+    _METHODS[0] = meths
+    _CLASSES[0] = classes
+    defs.update(meths)
     if not defs and not foreign:
         return 0
     cms = {n: (f, h) for n, (f, h) in module_cms(tree, new_names).items()}
@@ -329,7 +463,7 @@ def inline_module(tree, new_names, foreign=None):
     # here or - by attribute or import - from another module)
     if count:
         for nm, fn in list(defs.items()):
-            if nm in _EXTERNAL[0]:
+            if nm in _EXTERNAL[0] or nm in _METHODS[0]:
                 continue
             used = False
             for n in ast.walk(tree):
@@ -353,6 +487,8 @@ def inline_module(tree, new_names, foreign=None):
 _FOREIGN = [{}]
 _NEED = [{}]
 _EXTERNAL = [set()]
+_METHODS = [{}]
+_CLASSES = [set()]
 
 
 def _enclosing_def_name(st, tree):
@@ -377,7 +513,14 @@ def _calls_in_stmt(st, defs):
     for r in roots:
         for n in _own_walk([r]):
             if isinstance(n, ast.Call) and isinstance(
-                    n.func, ast.Name) and n.func.id in defs:
+                    n.func, ast.Name) and n.func.id in defs and \
+                    n.func.id not in _METHODS[0]:
+                out.append(n)
+            elif isinstance(n, ast.Call) and isinstance(
+                    n.func, ast.Attribute) and n.func.attr in _METHODS[0] \
+                    and isinstance(n.func.value, ast.Name) and (
+                        n.func.value.id in ('self', 'cls')
+                        or n.func.value.id in _CLASSES[0]):
                 out.append(n)
     return out
 
@@ -432,7 +575,8 @@ def _expand_stmt(st, defs, cms, owner):
                 return [t]
     calls = _calls_in_stmt(st, defs)
     for call in calls:
-        fn = defs[call.func.id]
+        fn = defs[call.func.id if isinstance(call.func, ast.Name)
+                  else call.func.attr]
         if fn.name in cms or _is_cm(fn):
             continue
         # do not expand a helper inside itself
@@ -451,10 +595,16 @@ def _expand_stmt(st, defs, cms, owner):
                     continue
             _replace_child(st, call, res)
             return pro + [st]
-        ex = expand(fn, call)
+        tgt = None
+        if whole and isinstance(st, ast.Assign) and len(
+                st.targets) == 1 and isinstance(st.targets[0], ast.Name):
+            tgt = st.targets[0].id
+        ex = expand(fn, call, tgt)
         if ex is None:
             continue
         stmts, res = ex
+        if whole and tgt and isinstance(res, ast.Name) and res.id == tgt:
+            return stmts or [ast.copy_location(ast.Pass(), st)]
         if whole:
             if isinstance(st, ast.Expr):
                 tail = []
